@@ -152,7 +152,7 @@ def as_func(func, node):
     return fi
 
 
-def unroll_literal_loops(funcnode, max_elems=4):
+def unroll_literal_loops(funcnode, max_elems=8):
     """A copy of the function in which `for x in (A, B): body` - the iterable a tuple / list written out, directly or as a
     local assigned once - is replaced by body[x := A]; body[x := B].  Only loops whose body neither assigns x nor
     contains break / continue / else are unrolled.  Returns funcnode itself if there is nothing to unroll."""
@@ -182,20 +182,66 @@ def unroll_literal_loops(funcnode, max_elems=4):
                     setattr(s, fld, block(sub))
             for h in getattr(s, 'handlers', []) or []:
                 h.body = block(h.body)
-            if isinstance(s, ast.For) and isinstance(s.target, ast.Name) and not s.orelse:
+            tnames = [s.target.id] if isinstance(s, ast.For) and isinstance(s.target, ast.Name) else (
+                [e.id for e in s.target.elts] if isinstance(s, ast.For) and isinstance(s.target, (ast.Tuple, ast.List)) and
+                all(isinstance(e, ast.Name) for e in s.target.elts) else None)
+            if tnames and not s.orelse:
                 it = flow.inline(s.iter)
                 inner = [n for st in s.body for n in ast.walk(st)]
-                if isinstance(it, (ast.Tuple, ast.List)) and 0 < len(it.elts) <= max_elems and not any(isinstance(e, ast.Starred) for e in it.elts) and \
-                        not any(isinstance(n, (ast.Break, ast.Continue)) for n in inner) and \
-                        not any(isinstance(n, ast.Name) and n.id == s.target.id and isinstance(n.ctx, (ast.Store, ast.Del)) for n in inner):
+                rows_ok = isinstance(it, (ast.Tuple, ast.List)) and 0 < len(it.elts) <= max_elems and not any(isinstance(e, ast.Starred) for e in it.elts) and (
+                    isinstance(s.target, ast.Name) or all(isinstance(e, (ast.Tuple, ast.List)) and len(e.elts) == len(tnames) and
+                                                          not any(isinstance(x, ast.Starred) for x in e.elts) for e in it.elts))
+                if rows_ok and not any(isinstance(n, (ast.Break, ast.Continue)) for n in inner) and \
+                        not any(isinstance(n, ast.Name) and n.id in tnames and isinstance(n.ctx, (ast.Store, ast.Del)) for n in inner):
                     for e in it.elts:
+                        vals = [e] if isinstance(s.target, ast.Name) else list(e.elts)
                         for st in s.body:
-                            out.append(Sub(s.target.id, e).visit(copy.deepcopy(st)))
+                            st2 = copy.deepcopy(st)
+                            for nm, v in zip(tnames, vals):
+                                st2 = Sub(nm, v).visit(st2)
+                            out.append(st2)
                     count[0] += 1
                     continue
             out.append(s)
         return out
     new.body = block(new.body)
+    if not count[0]:
+        return funcnode
+    ast.fix_missing_locations(new)
+    return new
+
+
+def conditional_expressions_as_branches(funcnode):
+    """A copy of the function in which `return A if c else B` is written `if c: return A` / `else: return B`, and the same for
+    a plain assignment `x = A if c else B`.  Returns funcnode itself when there is none."""
+    count = [0]
+
+    class T(ast.NodeTransformer):
+        def visit_FunctionDef(self, node):
+            self.generic_visit(node)
+            return node
+
+        def visit_Lambda(self, node):
+            return node
+
+        def visit_Return(self, node):
+            v = node.value
+            if isinstance(v, ast.IfExp):
+                count[0] += 1
+                a = self.visit_Return(ast.copy_location(ast.Return(value=v.body), node))
+                b = self.visit_Return(ast.copy_location(ast.Return(value=v.orelse), node))
+                return ast.copy_location(ast.If(test=v.test, body=[a], orelse=[b]), node)
+            return node
+
+        def visit_Assign(self, node):
+            v = node.value
+            if isinstance(v, ast.IfExp) and len(node.targets) == 1 and isinstance(node.targets[0], ast.Name):
+                count[0] += 1
+                a = ast.copy_location(ast.Assign(targets=copy.deepcopy(node.targets), value=v.body), node)
+                b = ast.copy_location(ast.Assign(targets=copy.deepcopy(node.targets), value=v.orelse), node)
+                return ast.copy_location(ast.If(test=v.test, body=[a], orelse=[b]), node)
+            return node
+    new = T().visit(copy.deepcopy(funcnode))
     if not count[0]:
         return funcnode
     ast.fix_missing_locations(new)
